@@ -453,18 +453,14 @@ def translucent_over(c, bg, rnd):
         if all(0 <= v <= 255 for v in fg):
             form = rnd.randrange(6)
             r, g, b = fg
-            if form == 0:
-                return f"rgba({r}, {g}, {b}, {a})"
-            if form == 1:
-                return f"rgb({r} {g} {b} / {a})"
-            if form == 2:
-                return f"rgb({r}, {g}, {b}, {a})"
-            if form == 3:
-                return f"{r}, {g}, {b}, {a}"
-            if form == 4:
-                return (r, g, b, a)
-            return f"({r}, {g}, {b}, {a})"
+            txt = [f"rgba({r}, {g}, {b}, {a})", f"rgb({r} {g} {b} / {a})", f"rgb({r}, {g}, {b}, {a})", f"{r}, {g}, {b}, {a}",
+                   (r, g, b, a), f"({r}, {g}, {b}, {a})"][form]
+            LAST_COMP[0] = {"kind": "rgb", "v": [r, g, b], "an": int(round(a * 1000)), "ad": 1000, "bgv": list(bg), "ban": 1000, "bad": 1000}
+            return txt
     return None
+
+
+LAST_COMP = [None]     # abstract description of the last translucent spelling produced (for TrPair's composite clause)
 
 
 _LUMB = None
